@@ -13,6 +13,32 @@ COMMON_NOTE = ("Trusted: Coq 8.16.1 kernel incl. vm_compute (no native_compute, 
 T = "Coq proof ({how}) + in-Coq differential correspondence"
 
 CHECKS = {
+    "C04": dict(
+        text="Theorems (Props/C04.v, 5, all Closed under the global context): for EVERY text accepted by the boolean grammar "
+             "wf_changelog (deb-changelog(5) as the property words it: any number of blocks, header with distributions, "
+             "urgency, optional comment, extra key=value pairs, change lines incl. non-ASCII/#/:/FF, blank lines inside and "
+             "between blocks, optional leading blank lines) strict parsing succeeds with NO warning and format = the text "
+             "byte for byte, in strict and lenient mode and for the text given as a line list; the parsed blocks expose exactly "
+             "the written package, version, distributions, urgency, comment, pairs IN FILE ORDER, changes, author and date.  "
+             "Holds for every instance of the 13 junk-line classifiers.  Induction over block and line lists.",
+        design="§4 C04",
+        note=COMMON_NOTE + "Modelled not verified: the regex leaves topline/endline/changere/keyvalue/value_re etc. (compared per "
+             "run with the live compiled patterns, CLeaf cases); file-object input and LF-terminated line lists are compared, "
+             "not proved; the public version property is observed by holds, not modelled.  Case text literals are packed into "
+             "Uint63 for speed (Check module only; no theorem mentions them).",
+        technique=T.format(how="round trip by induction over the grammar's blocks and lines, parametric in 13 classifiers")),
+    "C15": dict(
+        text="Theorems (Props/C15.v, 7, all Closed under the global context), for EVERY instance of the 13 junk classifiers: the "
+             "lenient constructor never raises on any input in any form; strict raises ParseError — and only that — exactly "
+             "when lenient warns, and otherwise returns the same object; str() of ANY parsed text re-parses to the identical "
+             "object; any in-domain edit script (new_block, add_change, attribute assignment) on the empty changelog or on any "
+             "parsed text that can be formatted re-parses to the same blocks (up to the private no-trailer flag, which keeps "
+             "all eleven public fields) and formats to the identical text.  Induction over line lists and edit scripts.",
+        design="§4 C15",
+        note=COMMON_NOTE + "Modelled not verified: regex leaves (CLeaf correspondence); normal-form theorems are for str input with "
+             "max_blocks=None (max_blocks=0 with a non-blank leading line is outside the quantifier and stated in ASSUMPTIONS); "
+             "edited values are in their documented domains (single-line change text, 'name <mail>' author, RFC-2822-shaped date).",
+        technique=T.format(how="totality by a state invariant, strict/lenient by one step function, normal form by induction over edit scripts")),
     "C07": dict(
         text="PARTIAL BY CONSTRUCTION (tarfile and the gz/bz2/xz/lzma codecs are CPython's and are not modelled; they are "
              "exercised by the harness on every run: all 25 compression pairs, member orders, names with spaces, binary "
@@ -97,19 +123,20 @@ CHECKS = {
              "p[k]=v builds (C05's), negative insert indices compared only.  Theorems assume ops address existing paragraphs.",
         technique=T.format(how="invariant + refinement to a list-of-fields spec, induction over histories")),
     "C11": dict(
-        text="Theorems (Props/C11.v, 6, all Closed under the global context): for every value text in the domain and both "
+        text="Theorems (Props/C11.v, 11, all Closed under the global context): for every value text in the domain and both "
              "interpretations list(view) = split_spec (comment lines dropped, whole text split on the separator, trimmed, empties "
-             "dropped); open + reads + close leaves the document byte-identical; for whitespace-separated lists any sequence of "
-             "append/remove/replace — directly or through value references — does exactly the Python list operation or is "
-             "refused exactly when it is inapplicable, and after a successful close the written text is valid, re-parses to "
-             "itself and reads back as the edited list; a failing close leaves the text unchanged; only the value text of "
-             "that field changes.  NOT proved: edit read-back for comma-separated lists (statement kept in a comment; "
-             "compared on every run).",
+             "dropped); open + reads + close leaves the document byte-identical; for whitespace-separated AND comma-separated "
+             "lists any sequence of append/remove/replace — directly or through value references — does exactly the Python "
+             "list operation or is refused exactly when it is inapplicable (remove covers every layout: multi-line values, "
+             "doubled/leading/trailing commas, comment lines between and inside values, both sides of the _remove_node choice), "
+             "and after a successful close the written text is valid, re-parses to itself and reads back as the edited list; a "
+             "failing close leaves the text unchanged; the close succeeds whenever the value does not end on a comment line "
+             "and the edited list is non-empty; only the value text of that field changes.",
         design="§4 C11",
         note=COMMON_NOTE + "Modelled not verified: the two finditer regex leaves, the shared text-cache slot of "
-             "Deb822ParsedValueElement (modelled as the IV flag), append_separator/newline/comment; value_ok is LF-only; "
-             "sessions read the list right after opening.  view_edit_local is true by construction of the model: its tie is "
-             "the correspondence.",
+             "Deb822ParsedValueElement (modelled as the IV flag), append_separator/newline/comment and new values outside "
+             "good_value (compared only); value_ok is LF-only; sessions read the list right after opening.  view_edit_local is "
+             "true by construction of the model: its tie is the correspondence.",
         technique=T.format(how="refinement of token-list edits to list operations, induction over edit sequences")),
     "C12": dict(
         text="Theorems (Props/C12.v, 21, all Closed under the global context), quantified over the tables REGENERATED from the "
